@@ -29,11 +29,13 @@ Definition parse_net (s : str) : option (N * nat) :=
   end.
 Fixpoint sequence {A} (l : list (option A)) : option (list A) :=
   match l with [] => Some [] | x :: r => match x, sequence r with Some a, Some b => Some (a :: b) | _, _ => None end end.
+Definition parse_net_item (s : str) : option (list (N * nat)) :=
+  if str_eqb s (lit "D") then Some DEFAULT_PRESERVED_PREFIXES            (* preserve_prefixes=None *)
+  else if str_eqb s (lit "P") then Some RFC_1918_NETWORKS                 (* --preserve-private-addresses *)
+  else option_map (fun x => [x]) (parse_net s).
 Definition parse_nets (s : str) : option (list (N * nat)) :=
   if str_eqb s (lit "-") then Some []
-  else if str_eqb s (lit "D") then Some DEFAULT_PRESERVED_PREFIXES     (* preserve_prefixes=None *)
-  else if str_eqb s (lit "P") then Some RFC_1918_NETWORKS              (* --preserve-private-addresses *)
-  else sequence (map parse_net (split_on 59 s)).
+  else option_map (@concat _) (sequence (map parse_net_item (split_on 59 s))).
 
 Definition show_pair (p : N * N) : str := show_dec (fst p) ++ [58] ++ show_dec (snd p).
 
